@@ -94,6 +94,43 @@ def slow_agent_two_sessions(chk: Check, rng):
             chk.disagree("Calibrator+RLScheduler (slow agent, two calls) != BlackIt.Calibrator", {"scenario": scn_json(scn), "impl": (x or "")[:300], "model": (y or "")[:300]})
 
 
+def same_object_in_two_slots(chk: Check, rng):
+    """a line-up in which one sampler object fills several slots ([a, b, a]): batch i is still produced by slot i mod n, with that slot's
+    batch size; RL: the agent's index still addresses the supplied list.  Real built-in samplers, real calibrator, toy model."""
+    import contextlib, io
+    from black_it.calibrator import Calibrator
+    from vp import twin
+
+    for case in range(3 if chk.tier == "quick" else 20):
+        k = rng.randint(2, 3)
+        distinct = [ch.make_builtin(nm, rng.randint(1, 4), None, None) for nm in rng.sample(["HaltonSampler", "RandomUniformSampler", "RSequenceSampler"], k)]
+        n_slots = rng.randint(k + 1, k + 3)
+        slots = list(range(k)) + [rng.randrange(k) for _ in range(n_slots - k)]
+        rng.shuffle(slots)
+        lineup = [distinct[j] for j in slots]
+        for j, s in enumerate(distinct):
+            s._vp_obj, s._vp_calls = j, 0
+        nb = rng.randint(n_slots + 1, 2 * n_slots + 2)
+        d = rng.randint(1, 3)
+        with ch.recording() as rec, contextlib.redirect_stdout(io.StringIO()), warnings.catch_warnings():
+            warnings.simplefilter("ignore")
+            ch.STATE.update(sampler_calls=0, faults=set())
+            cal = Calibrator(loss_function=twin.make_loss("minkowski"), real_data=twin.real_data(12), model=twin.toy_model, samplers=lineup,
+                             parameters_bounds=[[0.0] * d, [1.0] * d], parameters_precision=[0.01] * d, ensemble_size=1, verbose=False, random_state=rng.randrange(10 ** 6), n_jobs=1)
+            parts = [nb] if rng.random() < 0.5 else [nb // 2, nb - nb // 2]
+            for p_ in parts:
+                cal.calibrate(p_)
+        produced = [(obj, int(bs), len(rows)) for (obj, _, bs, rows) in rec.get("_order", [])]
+        want = [(slots[i % n_slots], int(distinct[slots[i % n_slots]].batch_size), int(distinct[slots[i % n_slots]].batch_size)) for i in range(nb)]
+        chk.case(["same-object", slots, [type(s).__name__ for s in distinct], nb], True, {"slots_to_objects": slots, "batches": nb, "produced_by": [p[0] for p in produced]})
+        chk.count("rr:same_object_in_two_slots")
+        if produced != want:
+            chk.fail(f"line-up with one sampler object in several slots {slots}: batches were produced by objects {[p[0] for p in produced]} (sizes {[p[2] for p in produced]}), "
+                     f"round robin prescribes {[w[0] for w in want]} (sizes {[w[2] for w in want]})", {"case": {"kind": "same-object", "slots": slots, "nb": nb}})
+        if len(cal.scheduler.samplers) != n_slots:
+            chk.fail(f"the scheduler holds {len(cal.scheduler.samplers)} samplers for a line-up of {n_slots} slots", {"case": {"kind": "same-object", "slots": slots}})
+
+
 def ctor_cases():
     from black_it.calibrator import Calibrator
     from black_it.schedulers.round_robin import RoundRobinScheduler
@@ -147,6 +184,7 @@ def run(chk: Check):
             chk.disagree("Calibrator+RoundRobinScheduler != BlackIt.Calibrator (scheduling)",
                          {"scenario": scn_json(scn), "op_index": k, "fields": ch.diff_fields(a, b) if k is not None and k >= 0 else None, "impl": a[:500], "model": b[:500]})
     slow_agent_two_sessions(chk, rng)
+    same_object_in_two_slots(chk, rng)
     # RL
     m = 40 if chk.tier == "quick" else 600
     for i in range(m):
